@@ -907,11 +907,22 @@ def run_verus(path, rlimit=None, extra=(), timeout=900):
         cmd += ['--rlimit', str(rlimit)]
     t0 = time.time()
     env = dict(os.environ)
+    # own process group: on a timeout the solver processes (grandchildren) are killed too, not left spinning
+    p = subprocess.Popen(cmd, stdout=subprocess.PIPE, stderr=subprocess.PIPE, text=True, cwd=os.path.dirname(path), env=env, start_new_session=True)
     try:
-        p = subprocess.run(cmd, capture_output=True, text=True, timeout=timeout, cwd=os.path.dirname(path), env=env)
-        out, err, rc = p.stdout, p.stderr, p.returncode
-    except subprocess.TimeoutExpired as e:
-        out, err, rc = (e.stdout or b'').decode() if isinstance(e.stdout, bytes) else (e.stdout or ''), 'verus timed out', 124
+        out, err = p.communicate(timeout=timeout)
+        rc = p.returncode
+    except subprocess.TimeoutExpired:
+        import signal
+        try:
+            os.killpg(p.pid, signal.SIGKILL)
+        except Exception:
+            p.kill()
+        try:
+            out, _ = p.communicate(timeout=10)
+        except Exception:
+            out = ''
+        out, err, rc = out or '', 'verus timed out', 124
     wall = time.time() - t0
     js = None
     try:
